@@ -196,6 +196,11 @@ SHAPES = [
      'from nada_dsl import *\n\ndef nada_main():\n    alice = Party(name="Alice")\n    raw = Input(name="a", party=alice)\n'
      '    shown = PublicInteger(raw)\n    a = SecretInteger(raw)\n    return [Output(a + a, "twice", alice)]\n',
      ["Alice"], [("a", "Alice", "SecretInteger")]),
+    ("input-constructed-but-never-wrapped",
+     'from nada_dsl import *\n\ndef nada_main():\n    alice = Party(name="Alice")\n    a = SecretInteger(Input(name="a", party=alice))\n'
+     '    b = SecretInteger(Input(name="b", party=alice))\n    unused = SecretInteger(Input(name="unused", party=alice))\n'
+     '    spare = Input(name="spare", party=alice)\n    return [Output(a + b, "s", alice)]\n',
+     ["Alice"], [("a", "Alice", "SecretInteger"), ("b", "Alice", "SecretInteger"), ("unused", "Alice", "SecretInteger"), ("spare", "Alice", None)]),
     ("augmented-assignment-keeps-the-operand",
      'from nada_dsl import *\n\ndef nada_main():\n    p = Party(name="P")\n    a = PublicInteger(Input(name="a", party=p))\n'
      '    c = PublicInteger(Input(name="c", party=p))\n    b = SecretInteger(Input(name="b", party=p))\n    acc = a\n'
